@@ -20,7 +20,7 @@ for p in sorted(glob.glob(os.path.join(V, "lib", "manifest.d", "C*.json"))):
         "replay_cmd_template": "./check %s --replay {path}" % pid,
         "engine": "coq-proof+correspondence",
         "level_claimed": {"category": e.get("category", "proof"), "text": e["text"], "design_ref": e.get("design_ref", "DESIGN.md section 4 " + pid)},
-        "level_note": e["note"],
+        "level_note": e["note"] + " When the library source differs from lib/pinned_src, every changed line this property's run-time producers reach must also have been executed by a compared input (coverage obligation, DESIGN.md 9.4a), else the check escalates and then reports that the correspondence no longer checks.",
         "technique": e["technique"],
     })
 na_path = os.path.join(V, "lib", "not_applicable.json")
@@ -44,11 +44,11 @@ m = {
         "name": "coq-proof+correspondence",
         "path": "/verif/check",
         "serves_properties": claimed,
-        "kind_free_text": "Coq 8.16 theorems (no axioms) about hand-written executable Gallina models; the models are run (extracted to OCaml, cross-checked by vm_compute) against a Rust harness built from /repo's working tree and against the real std on bounded-exhaustive + seeded random cases",
+        "kind_free_text": "Coq 8.16 theorems (no axioms) about hand-written executable Gallina models; the models are run (extracted to OCaml, cross-checked by vm_compute) against a Rust harness built from /repo's working tree and against the real std on bounded-exhaustive + stress (block sizes, type limits, confusable bytes) + seeded random cases; on a changed source, line coverage of the changed code by those cases is an obligation",
     }],
     "checks": checks,
     "not_applicable": na,
-    "notes": "Genuine defects F1-F6 are repaired by 'fix:' commits in /repo (KNOWN_FINDINGS.txt, DESIGN.md section 5); F7 (C10) is a known finding. Seeded breaking changes and which check catches them: /verif/seeded and DESIGN.md.",
+    "notes": "Genuine defects F1-F6 are repaired by 'fix:' commits in /repo (KNOWN_FINDINGS.txt, DESIGN.md section 5); F7 (C10), F8 (C09), F9 (C17) are known findings. Seeded breaking changes and which check catches them: /verif/seeded and DESIGN.md.",
 }
 json.dump(m, open(os.path.join(V, "MANIFEST.json"), "w"), indent=1)
 print("MANIFEST.json:", len(checks), "checks;", len(na), "not claimed")
